@@ -617,6 +617,41 @@ def scenario_unkeyable(run, nseq, length):
                     run.jobs.append((cfg, ops, None))
 
 
+def scenario_recursive(run, nseq, algs=None, backends=('plain', 'dictarch', 'file'), maxsizes=(1, 2, 3), raising=False):
+    """a memoized RECURSIVE function: while f(a) is evaluated it calls the decorated f for other arguments (a chain like
+    fib(n) -> fib(n-1) -> ..., or two calls at one level).  Each nested call is an ordinary, complete call that happens
+    before the outer one returns; the outer call is judged against the state the nested ones left."""
+    rng = run.rng
+    NX = 6
+    for _ in range(nseq):
+        alg = rng.choice(algs or ALLALG)
+        module = rng.choice(['std', 'safe'])
+        cfg = py_cfg(module, alg, rng.choice(list(maxsizes)), rng.choice(list(backends)), ('str', True, False),
+                     purge=rng.random() < 0.25, nx=NX)
+        ops = []
+        for _k in range(rng.randint(2, 6)):
+            r = rng.random()
+            if r < 0.55:
+                chain = rng.sample(range(1, NX + 1), rng.randint(2, 5))     # distinct keys: no cycle
+                if raising and rng.random() < 0.4:                          # one member of the chain raises
+                    chain[rng.randrange(len(chain))] = NX + rng.choice([4, 5])
+                node = {'a': chain[-1]}
+                for a in reversed(chain[:-1]):
+                    kids = [node]
+                    if rng.random() < 0.3:
+                        extra = [x for x in range(1, NX + 1) if x not in chain]
+                        if extra:
+                            kids.append({'a': rng.choice(extra)})
+                    node = {'a': a, 'nest': kids}
+                ops.append(dict(node, op='call'))
+            elif r < 0.9:
+                ops.append({'op': 'call', 'a': rng.randint(1, NX)})
+            else:
+                ops.append(rng.choice([{'op': 'clear', 'keep': False}, {'op': 'dump'}, {'op': 'info'}]))
+        ops.append({'op': 'info'})
+        run.jobs.append((cfg, ops, None))
+
+
 def scenario_probes(run, kinds, modules=('std', 'safe'), backends=('plain', 'dictarch')):
     """deterministic probes of corners that random walks reach only by luck (each was motivated by a seeded change that a
     run of random walks missed): what follows a clear(keepstats), the LRU/MRU queue compaction, an unkeyable call
@@ -674,6 +709,7 @@ def check_C01(tier):
                     'direct-file', 'direct-dir'], 2500 if t else 350, 40 if t else 25,
                     variants=('plain', 'plain', 'ignore_y', 'tol0'))
     scenario_probes(run, {'compaction', 'clear', 'peek'}, backends=('plain', 'dictarch', 'file'))
+    scenario_recursive(run, 1000 if t else 150)
     return run.finish(assumptions=ASSUME)
 
 
@@ -687,7 +723,24 @@ def check_C02(tier):
     scenario_random(run, ALLALG, ['std', 'safe'], ['plain', 'dictarch', 'file', 'dir', 'sql', 'direct-dict', 'direct-dir'],
                     1500 if t else 200, 40 if t else 25, variants=('plain', 'plain', 'ignore_y', 'ignore_1', 'tol0'))
     scenario_probes(run, {'compaction', 'clear'}, backends=('dictarch', 'file'))
-    return run.finish(assumptions=ASSUME)
+    scenario_recursive(run, 1000 if t else 150, backends=('dictarch', 'file', 'dir'))
+    # histories in which the archive object is replaced (f.archive(B)) between evictions and re-loads
+    scenario_random(run, BOUNDED + ['inf'], ['std', 'safe'], ['dictarch', 'file', 'dir'], 600 if t else 120, 40 if t else 30,
+                    profile='setarch', maxsizes=(1, 2))
+    # fault injection: the archive's read fails once exactly when a call would be answered from the archive; the standard
+    # decorators must not evaluate the function then (the 'safe' ones degrade to plain evaluation by contract: excluded)
+    rng = run.rng
+    for _ in range(900 if t else 150):
+        alg = rng.choice(ALLALG)
+        cfg = py_cfg('std', alg, rng.choice([1, 2]), 'flaky', ('str', True, False), purge=rng.random() < 0.3)
+        ops = []
+        for o in cd.random_ops(rng, 30 if t else 22, cfg, 7, 'nobulk'):
+            if o['op'] == 'call' and rng.random() < 0.5:
+                o['rfault'] = True
+            ops.append(o)
+        run.jobs.append((cfg, ops, None))
+    return run.finish(assumptions=ASSUME + ['fault injection: a one-shot OSError in the in-memory archive\'s __getitem__, armed only for '
+                                            'calls whose key is archived and not resident (standard decorators only)'])
 
 
 def check_C05(tier):
@@ -697,6 +750,7 @@ def check_C05(tier):
                 depth_q=6, depth_t=8, sim_num=(12, 80), exh_depth=(4, 5), exh_ops={'call', 'load', 'dump', 'clear'}, exh_args={1, 2, 3, 4})
     t = tier == 'thorough'
     scenario_spellings(run, 30 if t else 20, reps=6 if t else 1)
+    scenario_recursive(run, 1500 if t else 250)
     scenario_probes(run, {'clear', 'compaction'})
     scenario_random(run, BOUNDED, ['std', 'safe'], ['plain', 'dictarch', 'file', 'dir', 'sql'], 1500 if t else 250,
                     40 if t else 30, maxsizes=(1, 2, 3, 4), nx=6, profile='setarch')
@@ -721,6 +775,7 @@ def check_C06(tier):
     with ThreadPoolExecutor(max_workers=common.NCPU) as ex:
         list(ex.map(lambda c: run.generate(c, 400 if t else 60, 45 + 12 * c['MAXSIZE']), longs))
     scenario_probes(run, {'compaction', 'clear'})
+    scenario_recursive(run, 1500 if t else 250, algs=BOUNDED, backends=('plain', 'dictarch'))
     return run.finish(assumptions=ASSUME + ['entries that entered memory through a bulk load() have no recorded use; '
                                             'the policy clause is not judged while such entries are resident (C05 covers the bound)'])
 
@@ -733,6 +788,7 @@ def check_C07(tier):
     t = tier == 'thorough'
     scenario_random(run, ['no'] + BOUNDED, ['std', 'safe'], ['dictarch', 'file', 'dir', 'sql'], 1500 if t else 250,
                     40 if t else 25, profile='setarch')
+    scenario_recursive(run, 800 if t else 120, algs=BOUNDED, backends=('dictarch', 'file', 'dir'))
     # focused walks: evictions interleaved with replacing the archive (evict -> reload -> f.archive(B) -> evict)
     foc = []
     for alg in BOUNDED:
@@ -770,6 +826,7 @@ def check_C15(tier):
     scenario_random(run, ALLALG, ['std', 'safe'], ['plain', 'dictarch', 'file', 'dir', 'sql', 'direct-dict'],
                     1500 if t else 250, 40 if t else 25)
     scenario_unkeyable(run, 2 if t else 1, 20)
+    scenario_recursive(run, 1000 if t else 150, raising=True)
     return run.finish(assumptions=ASSUME)
 
 
@@ -781,6 +838,7 @@ def check_C16(tier):
     t = tier == 'thorough'
     scenario_unkeyable(run, 4 if t else 1, 25 if t else 18)
     scenario_probes(run, {'unkey'})
+    scenario_recursive(run, 1000 if t else 150, raising=True)
     scenario_random(run, ALLALG, ['std', 'safe'], ['plain', 'dictarch', 'file', 'dir', 'direct-dict'],
                     1000 if t else 150, 40 if t else 25)
     return run.finish(assumptions=ASSUME + ['"unkeyable" arguments: a list for raw / python-hash keymaps, an object whose '
